@@ -41,6 +41,11 @@ def run(ctx):
     # history: the same maps remapped AFTER other maps of the same input on ONE IndexedAssembly object (in-process state must not matter)
     hk = ['script', 'tightscript', 'tagged']
     R.run_history_cases(ctx, "object-history", [R.make_case(ctx.rng, ctx.rng.choice(hk)) for _ in range(240 if ctx.thorough else 40)], PROJ, oracle, (classify if "classify" in globals() else None))
+    # the command-line tool end to end on a sample of the same generators: what is proved / compared about the in-memory result holds for the FILES
+    # only if the tool finishes whenever the remap does and writes every assembly with exactly its scaffolds (waves 11-12)
+    cli_cases = [gen(ctx, kind) for stream, kind, n in streams(ctx) for _ in range(max(3, n // 100))]
+    R.run_cli_cases(ctx, "cli-end-to-end", cli_cases, (classify if "classify" in globals() else None),
+                    only=["CLI exit", "CLI succeeded", "output file", "does not contain exactly", "unexpected assembly files"])
 
 
 def search(ctx, broken):
